@@ -40,6 +40,7 @@ PROPERTIES = {
             (C.C_idx_find, "C02.3-4 start atoms from the home block; grouping key folds like the result"),
             (A.A6_rotation_gate, "C02.4 at most one survivor per atom group"),
             (A.A7_tolerance_provenance, "C02.5 filter tolerance", {"funcs": ["find_pattern_in_structure"]}),
+            (A2.A14b_fallback_axis, "C02 antiparallel poses: the fallback rotation axis is never degenerate by construction"),
         ],
         "decided": "search radius = pattern diameter + c*atol (c>=1) shared by both spatial filters; each of the 18 window bounds extends by the radius "
                    "beyond the cell on its axis; triclinic plane normals are paired with the remaining lattice vector; all 27 images are generated and the "
@@ -73,6 +74,7 @@ PROPERTIES = {
             (A2.A14_randomness_sites, "C04.3 round(f*M) matches sampled"),
             (C.C_idx_replace, "C04.3 parallel results filtered by the same index list; reported count"),
             (A2.A12_extend_bookkeeping, "C04.4 bystanders untouched by extend"),
+            (C.C_unchanged_pairs, "C04 atoms common to both patterns are identified by equal element and coinciding coordinates"),
             (A2.A13_exhaustive_per_atom, "C04.4 delete removes rows only at the given indices", {"part": "delitem"}),
         ],
         "decided": "all three inputs are only read or deep-copied; deletion set is the union over selected matches of (match atoms - retained atoms), applied by one "
@@ -87,6 +89,7 @@ PROPERTIES = {
             (A.A3_fragment_typestate, "C05.2 placement order rotate < translate < wrap < insert"),
             (C.C_idx_replace, "C05.2 rotation, anchor and index tuple of one match come from the same match number"),
             (C.C_axis_diag, "C05.3 wrapping valid for every cell shape"),
+            (A.A7_tolerance_provenance, "C05.2 the match rotation is accepted with the caller's tolerance", {"funcs": ["find_pattern_in_structure", "replace_pattern_in_structure"]}),
         ],
         "decided": "both patterns are shifted by the same vector read before either is moved; the fragment goes copy < rotate < translate < wrap < extend on every path; "
                    "the final translation goes to the match position of the atom that was the origin; np.diag(cell) is used for wrapping only under an orthorhombic guard",
@@ -141,6 +144,7 @@ PROPERTIES = {
             (A2.A8_assertion_postdominates, "C09.1 consistency assertion ends every size-changing operation"),
             (D.D2_type_counts, "C09.2 type ids keep resolving to their own rows"),
             (B.B4_offsets_tuple, "C09.2 offsets per kind"),
+            (A2.A10_descending_contract, "C09.1 index re-mapping on delete: descending-order contract, drop iff any atom deleted"),
             (A.A2_copy_is_deep, "C09.4 copy is deep"),
             (A.A1_inputs_not_mutated, "C09.4 replicate / subset work on copies", {"only": ["Atoms.replicate", "Atoms.__getitem__", "Atoms.copy"]}),
             (E.E1_lmpdat_writer_reader, "C09.5 writer counts come from arrays of their own kind"),
@@ -186,6 +190,8 @@ PROPERTIES = {
             (A.A1_inputs_not_mutated, "C12.4 original untouched", {"only": ["Atoms.replicate", "Atoms.copy"]}),
             (A.A2_copy_is_deep, "C12.4 copies are deep"),
             (A2.A12_extend_bookkeeping, "C12.5 terms copied per image by extend"),
+            (B.B1_kind_blocks, "C12.5 per-kind blocks of extend agree (every kind of term is copied with its own types)", {"funcs": ["Atoms.extend", "Atoms._extend_extra_fields"]}),
+            (E.E_extra_fields_order, "C12.5 extra columns survive the per-image extend"),
         ],
         "decided": "cell scaling multiplies each lattice vector (row) by its own factor; image translation contracts the multipliers over the lattice axis; multipliers enumerate range(r) per "
                    "dimension with the zero image removed once; every extend in replicate passes zero offsets of the arity extend indexes; accumulator and images are deep copies",
@@ -195,7 +201,7 @@ PROPERTIES = {
     "C13": {
         "rules": [
             (E.E1_lmpdat_writer_reader, "C13 section table, column layouts, +1/-1 pairing, tilt entries, count lines, comments"),
-            (B.B1_kind_blocks, "C13 per-kind writer and reader blocks agree", {"funcs": ["Atoms.save_lmpdat", "Atoms.load_lmpdat"]}),
+            (B.B1_kind_blocks, "C13 per-kind writer and reader blocks agree", {"funcs": ["Atoms.save_lmpdat", "Atoms.load_lmpdat", "Atoms.num_*_types"]}),
             (D.D2_type_counts, "C13 declared type counts match the sections written", {"pair": False}),
             (D.D3_format_arity, "C13 format arity at all writer sites", {"modules": ["mofun.atoms"]}),
             (E.E_dispatch, "C13 load/save dispatch by extension or explicit type"),
